@@ -143,6 +143,16 @@ struct World {
     add_word(std::string(127, 'y'));
     add_word(std::string(128, 'x'));
     add_word(std::string(129, 'z'));
+    // siblings with bytes >= 0x80 (UTF-8 sequences of 2, 3, 4 bytes and a lone 0xff); appended so that a pick over the
+    // doubled vocabulary selects the same base word for the byte values that selected it before
+    auto times = [](const char *u, size_t n) { std::string r; while (n--) r += u; return r; };
+    add_word("st\xc3\xb6p");
+    add_word("gr\xc3\xb6\xc3\x9f" "e");
+    add_word("\xff");
+    add_word("pre\xe2\x82\xac.\xf0\x9f\x98\x80_0");
+    add_word(times("\xc3\xbf", 63) + "y");
+    add_word(times("\xc3\xbf", 64));
+    add_word(times("\xe2\x82\xac", 43));
   }
   ~World() {                 // release everything also when a check has thrown
     if (d_init) { if (cxx) d->~dispatch(); else mpt_dispatch_fini(d); }
@@ -150,7 +160,25 @@ struct World {
     mpt_array_clone(reinterpret_cast<array *>(T[1].arr), 0);
     g_w = 0;
   }
-  void add_word(const std::string &s) { vocab.push_back({s, mpt_hash(s.data(), (int)s.size())}); }
+  // the id of a command name is taken in both documented ways, alternating: mpt_hash(name, length) and mpt_hash(name) (zero-terminated, length -1)
+  void add_word(const std::string &s) { vocab.push_back({s, (vocab.size() & 1) ? mpt_hash(s.c_str(), -1) : mpt_hash(s.data(), (int)s.size())}); }
+  // the id under which a handler for the command word is registered
+  uintptr_t word_id(const std::string &w) {
+    for (const Word &v : vocab) if (v.text == w) return v.id;
+    return mpt_hash(w.data(), (int)w.size());
+  }
+  // metamorphic: the counted and the zero-terminated form of every hash function the library offers hash the same bytes
+  void check_forms(const std::string &w) {
+    if (w.empty() || w.find('\0') != std::string::npos) return;
+    struct { const char *name; uintptr_t (*fn)(const void *, int); } H[] = {{"mpt_hash", mpt_hash}, {"mpt_hash_djb2", mpt_hash_djb2}, {"mpt_hash_smdb", mpt_hash_smdb}};
+    bool high = false;
+    for (unsigned char ch : w) if (ch >= 0x80) high = true;
+    for (auto &h : H) {
+      uintptr_t a = h.fn(w.c_str(), -1), b = h.fn(w.data(), (int)w.size());
+      VP_CHECK(c, a == b, "hash-forms", "%s(\"%s\"): zero-terminated form gives %#zx, counted form (%zu bytes) gives %#zx", h.name, hex(w.data(), w.size(), 24).c_str(), (size_t)a, w.size(), (size_t)b);
+    }
+    if (high) c.label("hash:name-with-high-bytes");
+  }
 
   Hctx *newctx() {
     ctxs.emplace_back(new Hctx);
@@ -609,7 +637,8 @@ struct World {
         size_t n = c.near({1, 4, 127, 128, 129}, 200);
         if (!n) n = 1;
         static const char A[] = "abcdefghijklmnopqrstuvwxyz0123456789_.";
-        for (size_t i = 0; i < n; i++) t.word += A[c.pick(sizeof A - 1)];
+        // the upper half of the doubled range gives the same letter with the top bit set (bytes 0xae..0xfa)
+        for (size_t i = 0; i < n; i++) { size_t v = c.pick(2 * (sizeof A - 1)); char ch = A[v % (sizeof A - 1)]; t.word += v >= sizeof A - 1 ? (char)(ch | 0x80) : ch; }
       }
     }
     t.has_word = true;
@@ -688,7 +717,7 @@ struct World {
       // id 4 is handled by mpt_dispatch_hash(D, ev): the event goes to the handler registered for the hash of the command word
       if (!text || !text->has_word) { refused_by_hash = true; how = "hash-forwarder(no text)"; }
       else {
-        seen_id = mpt_hash(text->word.data(), (int)text->word.size());
+        seen_id = word_id(text->word);
         want = deliver_to(seen_id, &how);
         Entry *e2 = target_of(seen_id);
         if (e2 && e2->kind != KHarness) how = "library";
@@ -787,6 +816,7 @@ struct World {
       return;
     }
     emit_event("emit(msg)", &ev, bytes[0], is_text ? &text : 0);
+    if (is_text && text.has_word) check_forms(text.word);
   }
   void op_emit_default() {
     c.logf("emit default (ev == NULL), default id %#zx", (size_t)mdef);
@@ -835,12 +865,14 @@ struct World {
     event ev;
     ev.id = c.flip() ? 0 : draw_id(T[0]);
     ev.reply = c.chance(224) ? reinterpret_cast<reply_context *>(&reply) : 0;
-    c.logf("mpt_dispatch_hash, ev->id preset to %#zx, word \"%s\"", (size_t)ev.id, text.word.c_str());
+    bool ascii = true;
+    for (unsigned char ch : text.word) if (ch < 0x20 || ch > 0x7e) ascii = false;
+    c.logf("mpt_dispatch_hash, ev->id preset to %#zx, word %s%s%s", (size_t)ev.id, ascii ? "\"" : "hex ", ascii ? text.word.c_str() : hex(text.word.data(), text.word.size(), 48).c_str(), ascii ? "\"" : "");
     build(m, text.bytes);
     ev.msg = &m.m;
     c.label("op:hash");
     word_split(text, m);
-    uintptr_t id = text.has_word ? mpt_hash(text.word.data(), (int)text.word.size()) : 0;
+    uintptr_t id = text.has_word ? word_id(text.word) : 0;
     const char *how = "";
     Reg *want = 0;
     Entry *e = text.has_word ? target_of(id) : 0;
@@ -874,6 +906,7 @@ struct World {
     }
     mdef = d->_def;  // mpt_dispatch_hash by itself keeps no default-event books
     after("hash");
+    if (text.has_word) check_forms(text.word);
   }
   void op_fini() {
     std::vector<Exp> exp;
@@ -1036,7 +1069,7 @@ static Target t = {
     "reservations (1-byte id limit, wrap, low-id search) / mpt_dispatch_emit by id, by message (first byte, 1..n exact-size fragments incl. empty ones), default (NULL) / mpt_dispatch_hash "
     "directly and as handler of id 4 with command texts (separators NUL, space, ':' ','; words up to 200 bytes around the 128 byte copy buffer, split over fragments) / mpt_dispatch_fini + re-init; "
     "about 3 cases in 10 drive the dispatcher through the C++ wrapper instead (mpt::dispatch ctor/dtor, set_handler, handler, reserve, set_error, set_default); ids 0..7, 0x100000003, "
-    "hashes of 7 words, reserved ids, random bytes; per emit the invoked handler returns a drawn flag set (0..7, Retry, CtlError) or one of 10 errors and may rewrite ev->id. "
+    "hashes of 14 command names (7 with bytes >= 0x80 / UTF-8, ids taken alternately as mpt_hash(name,len) and mpt_hash(name,-1)), reserved ids, random bytes; per emit the invoked handler returns a drawn flag set (0..7, Retry, CtlError) or one of 10 errors and may rewrite ev->id. "
     "non-trivial: an event was delivered to a registered handler after a replace or a slot reuse in the dispatcher table, or fini ran with >= 2 live registrations; distinct by hash of the draw sequence.",
     run,
     {800, 4000},
